@@ -25,7 +25,10 @@ RowShaped(str) ==
 Verdict(e) ==
   LET a == e.argv
       o == e.obs
-  IN IF o.exit # 0 /\ o.stdout \notin {"empty", "help"} THEN "cli-wallet-data-on-stdout-of-failed-run"
+  IN IF "sink" \in DOMAIN e /\ e.sink = "closed-pipe"
+     THEN \* nobody reads the standard output: the wallet was not delivered, so the run has not succeeded
+          (IF o.exit = 0 THEN "cli-zero-status-although-stdout-was-closed" ELSE "ok")
+     ELSE IF o.exit # 0 /\ o.stdout \notin {"empty", "help"} THEN "cli-wallet-data-on-stdout-of-failed-run"
      ELSE IF o.exit # 0 /\ (o.created \/ o.fs_changed) THEN "cli-failed-run-touched-the-file-system"
      ELSE IF o.overwrote THEN "cli-existing-file-overwritten"
      ELSE IF ~NeverOverwrite(a, o) THEN "cli-wrote-at-an-existing-path"
